@@ -157,10 +157,25 @@ def _worker(seeds):
     return [observe(s) for s in seeds]
 
 
+def pred_fd_implicit_stale_residuals(scn, info):
+    """A finite-difference partial of an IMPLICIT component is (r(x+h) - r0)/h with r0 = the content of the residual vector
+    at linearization time, which is stale after run_model (solve_nonlinear does not evaluate residuals); a call that
+    evaluates them (check_partials) changes later totals by r0/h.  Matches: the result of compute_totals differs between
+    two histories of the same visible state, the model has an implicit component with an fd-declared partial, and a
+    check_partials precedes one of the two queries."""
+    obs = info.get('observed') or {}
+    if obs.get('verdict') != 'read-only-result-depends-on-history':
+        return False
+    md = scn.get('model') or {}
+    has = any(c['kind'] in ('impl', 'bil') and any(st == 'fd' for row in c['storage'] for st in row) for c in md.get('comps', []))
+    return has and any(e['a'] == 'CheckPartials' for e in scn.get('trace_prefix', []))
+
+
 def run(ctx):
     quick = ctx.tier == 'quick'
     n = 90 if quick else 1200
     base = 11000027 * (1 + ctx.seed % 1000)
+    ctx.register_predicates({'C31-fd-partial-of-implicit-component-stale-residual-baseline': pred_fd_implicit_stale_residuals})
     res = [r for rs in pmap(_worker, [c for c in split(list(range(base, base + n)), 48) if c]) for r in rs]
     for r in res:
         if 'exc' in r:
